@@ -115,6 +115,7 @@ KINDS = ["dict", "pairs", "uniform", "det", "softmax", "table"]
 DYADIC = ["0", "1/8", "1/4", "3/8", "1/2", "5/8", "3/4", "1", "3/2", "2", "1/16", "3"]
 
 
+TINY = ["1/%d" % 2**k for k in (27, 30, 34, 40, 47, 53, 60)]
 NEAR_ONE = [F(1, 2**17), F(1, 2**18), F(1, 2**19), F(1, 2**20), F(1, 10**6), F(8, 10**6)]
 
 
@@ -129,11 +130,20 @@ def gen_weights(rng, n):
             j = rng.choice([k for k in range(n) if parts[k] > 0])
             parts[j] += rng.choice(NEAR_ONE) * rng.choice([1, -1])
         return [str(p) for p in parts]
-    if r < .52:     # large magnitudes (an unnormalised measure), integral: also passed as ints
+    if r < .50:     # large magnitudes (an unnormalised measure), integral: also passed as ints
         return [rng.choice(["0", "1", "1000", "4096", "250000", "1048576", "3"]) for _ in range(n)]
+    if r < .54:     # large magnitudes with NEAR TIES: relative gaps 1e-6 .. 1e-5 that must be kept apart
+        base = rng.choice([10**3, 10**6, 10**9])
+        return [str(base + rng.choice([0, 0, 1, -1, 2]) * max(1, base // rng.choice([10**5, 10**6]))) for _ in range(n)]
     if r < .60:     # probabilities next to 0 and 1: 2^-30, 1 - 2^-20, 1 - 2^-30
         ws = [rng.choice(["1/1073741824", "1048575/1048576", "1073741823/1073741824", "0", "1/1048576"]) for _ in range(n)]
         return ws
+    if r < .67:     # tiny positive probabilities (2^-27 .. 2^-60, below any isclose(p, 0) band) next to ordinary ones
+        ws = [rng.choice(TINY + TINY + ["1/2", "1/4", "1", "0"]) for _ in range(n)]
+        return ws
+    if r < .76:     # NON-DYADIC numbers: thirds, tenths, sevenths (float row sums are not exactly 1.0)
+        fam = rng.choice([["1/3", "2/3", "1/6"], ["1/10", "2/10", "7/10", "3/10"], ["1/7", "2/7", "4/7"], ["1/10"]])
+        return [rng.choice(fam) for _ in range(n)]
     ws = [rng.choice(DYADIC) for _ in range(n)]
     for i in range(n):
         if rng.random() < .2:
@@ -146,6 +156,8 @@ def gen_weights(rng, n):
 def gen_dist(rng, kind=None, nmax=5, p_empty=0.0, pool=None):
     kind = kind or rng.choice(KINDS)
     n = 1 if kind == "det" else rng.choice([1, 2, 2, 3, 3, 4, nmax])
+    if kind != "det" and rng.random() < .06:
+        n = rng.choice([7, 10, 10, 13, 17, 20])     # larger supports, not powers of two (bisect depth, rows of ten)
     if pool:
         n = min(n, len(pool))
     if kind in ("dict", "pairs", "uniform") and rng.random() < p_empty:
@@ -272,6 +284,15 @@ def gen_case(rng):
             d2["weights"] = gen_weights(rng, len(ev))
         for k_ in ("num", "rep"):
             d2.pop(k_, None)
+    tiny_decides = rng.random() < .07 and d1["kind"] in ("dict", "pairs", "table") and len(d1["events"]) >= 2
+    if tiny_decides:
+        # the answer hangs on entries of probability 2^-27 .. 2^-60: they alone carry the likelihood / the overlap
+        n1_ = len(d1["events"])
+        tiny_ix = set(rng.sample(range(n1_), rng.randint(1, n1_ - 1)))
+        d1["weights"] = [rng.choice(TINY) if k_ in tiny_ix else rng.choice(["1/2", "1/4", "1"]) for k_ in range(n1_)]
+        d1.pop("num", None)
+        d2 = {"kind": rng.choice(["dict", "pairs"]), "events": list(d1["events"]),
+              "weights": [rng.choice(TINY + ["1"]) if k_ in tiny_ix else "0" for k_ in range(n1_)]}
     targets = rng.sample(range(NID), rng.randint(1, 3))
     proj_ids = [rng.choice(targets) if rng.random() < .8 else rng.randrange(NID) for _ in range(NID)]
     lm = rng.random()
@@ -281,9 +302,12 @@ def gen_case(rng):
         like_ids = [["int", rng.choice(["0", "1", "1", "2"])] for _ in range(NID)]
     else:           # float (or numpy float64) likelihoods with zeros and values next to 0
         ty = "np" if lm < .4 else "num"
-        like_ids = [[ty, "0" if rng.random() < .3 else rng.choice(DYADIC[1:] + ["1/1073741824", "1000"])] for _ in range(NID)]
+        like_ids = [[ty, "0" if rng.random() < .3 else rng.choice(DYADIC[1:] + ["1/1073741824", "1000", "1/1099511627776", "1/3", "1/10"])] for _ in range(NID)]
     if rng.random() < .04:
         like_ids = [["num", "0"] for _ in range(NID)]
+    if tiny_decides:    # positive likelihood exactly on the tiny entries
+        tid = {spec_ids(d1)[k_] for k_ in tiny_ix}
+        like_ids = [["num", rng.choice(["1", "1/2", "1/1099511627776"]) if i_ in tid else "0"] for i_ in range(NID)]
     big = rng.random() < .15
     real_ids = [str(F(rng.randint(-32, 32), 4) * (10**6 if big else 1)) for _ in range(NID)]
     sup1 = sorted(set(spec_ids(d1)))
@@ -292,6 +316,10 @@ def gen_case(rng):
         for i in sup1:
             real_ids[i] = NUMVAL[i]
     kern = {i: gen_dist(rng, nmax=3, p_empty=.05) for i in sup1}
+    kern_shared = bool(sup1) and rng.random() < .15
+    if kern_shared:     # the kernel hands out ONE distribution object for every event
+        one_k = gen_dist(rng, nmax=4)
+        kern = {i: one_k for i in sup1}
     shadow = None
     if rng.random() < .6:       # same class, same events, other numbers: built and used before d1
         shadow = dict(d1)
@@ -312,8 +340,8 @@ def gen_case(rng):
         else:
             script.append(["u", str(gen_u(rng, ws, tot))])
     gdraws = [str(gen_u(rng, ws, tot)) for _ in range(3)]
-    a = rng.choice(["0", "1/4", "1/2", "1/2", "3/4", "1", "2"])
-    b = rng.choice(["0", "1/4", "1/2", "1/2", "3/4", "1", "3"])
+    a = rng.choice(["0", "1/4", "1/2", "1/2", "3/4", "1", "2", "1/1099511627776", "1/3", "1000000"])
+    b = rng.choice(["0", "1/4", "1/2", "1/2", "3/4", "1", "3", "1/1152921504606846976", "7/10"])
     ab_int = F(a).denominator == 1 and F(b).denominator == 1 and rng.random() < .7
     neg = rng.choice(COLLIDING)
     neg = rng.sample(neg, 2)
@@ -325,6 +353,7 @@ def gen_case(rng):
         "real": [[enc(v), real_ids[ID[v]]] for v in UNIVERSE],
         "kern": [[enc(UNIVERSE[POS_OF_ID[i][0]]), kern[i]] for i in sup1],
         "a": a, "b": b, "ab_int": ab_int, "default_real": default_real, "shadow": shadow,
+        "kern_shared": kern_shared, "tiny_decides": tiny_decides,
         "gdraws": gdraws, "mixed_order": [rng.randrange(64) for _ in range(12)], "neg": [enc(UNIVERSE[neg[0]]), enc(UNIVERSE[neg[1]])],
         "script": script, "seed": rng.choice([0, 0, 1, rng.randrange(2**32), rng.randrange(2**32)]), "nseeded": 6,
         "_proj_ids": proj_ids, "_like": like_ids, "_real": real_ids,
@@ -352,7 +381,7 @@ Definition view (k : @kind Q nat) (probes : list nat) :=
   (od d, map (fun e => oq (@kprob Q NumQ nat E k e)) probes, oq (@mass Q NumQ nat d),
    @is_normalized Q NumQ nat (1#100000) (1#100000000) d).
 Definition run_case (k1 k2 : @kind Q nat) (probes f : list nat) (kern : list (list (nat * Q)))
-    (w g : list Q) (a b : Q) (es : option (list nat)) (draws : list (Q * nat)) (gus : list Q) :=
+    (w g : list Q) (a b : Q) (es : option (list nat)) (draws : list (Q * nat)) (gus : list Q) (es2 : option (list nat)) :=
   let d1 := it k1 in let d2 := it k2 in
   let es' := match es with Some l => l | None => @common Q nat E d1 d2 end in
   let ca := @condition_acc Q NumQ nat E (fq w) d1 in
@@ -371,7 +400,12 @@ Definition run_case (k1 k2 : @kind Q nat) (probes f : list nat) (kern : list (li
    map (@sample Q NumQ nat E d1) gus,
    @is_normalized Q NumQ nat 0 (1#1024) d1,
    od (@normalize Q NumQ nat E (@mix Q NumQ nat E (@scale Q NumQ nat E d1 a) (@scale Q NumQ nat E d2 b))),
-   od (@marginalize Q NumQ nat nat E (fn f) (@condition Q NumQ nat E (fq w) d1))).
+   od (@marginalize Q NumQ nat nat E (fn f) (@condition Q NumQ nat E (fq w) d1)),
+   (let e2 := match es2 with Some l => l | None => @common Q nat E d1 d1 end in
+    (od (@conj_on Q NumQ nat E e2 d1 d1),
+     oq (@psum Q NumQ (map (fun e => Qred (@prob Q NumQ nat E d1 e * @prob Q NumQ nat E d1 e)) e2)))),
+   od (@mix Q NumQ nat E d1 d1),
+   od (@joint Q NumQ nat nat E E d1 d1)).
 """
 
 
@@ -414,10 +448,13 @@ def case_term(case, res, draws):
     if isinstance(res["and"], list):
         es = "(Some %s)" % natlist([eid(e) for e, _ in res["and"]])
     dr = coqlist("(%s, %s)" % (q(u), nat(i)) for u, i in draws)
-    return "run_case %s %s %s %s %s %s %s %s %s %s %s %s" % (
+    es2 = "None"
+    if isinstance(res.get("self_and"), list):
+        es2 = "(Some %s)" % natlist([eid(e) for e, _ in res["self_and"]])
+    return "run_case %s %s %s %s %s %s %s %s %s %s %s %s %s" % (
         k1, k2, natlist(range(NID)), natlist(case["_proj_ids"]), coqlist(kl),
         coqlist(q(x) for x in w), coqlist(q(x) for x in case["_real"]),
-        q(case["a"]), q(case["b"]), es, dr, coqlist(q(u) for u in case.get("gdraws", [])))
+        q(case["a"]), q(case["b"]), es, dr, coqlist(q(u) for u in case.get("gdraws", [])), es2)
 
 
 # ---------------------------------------------------------------------------
@@ -445,8 +482,10 @@ def measure(spec, impl_items):
     return m
 
 
-def close(x, y, scale=1):
-    return abs(x - y) <= TOL * max(1, abs(y), scale)
+def close(x, y, scale=0):
+    """|x - y| <= 1e-12 * max(|y|, scale): relative to the exact value (scale: magnitude of the summands where
+    terms cancel, i.e. the forward error bound of a float sum); 2^-1000 only covers subnormal rounding"""
+    return abs(x - y) <= max(TOL * max(abs(y), scale), F(1, 2**1000))
 
 
 def as_measure(items, joint=False):
@@ -743,6 +782,9 @@ def run(ctx):
            "model_skipped_subnormal_floats": 0, "softmax_exact_typed_scores": 0,
            "softmax_exact_scores_beyond_float_integer_range": 0, "model_evaluations_retried": 0,
            "model_evaluation_failed_judged_by_oracle": 0, "and_normaliser_underflows_in_floats": 0,
+           "tiny_weight_entries_2^-27..2^-60": 0, "tiny_decides_cases": 0, "posterior_carried_by_tiny_entries": 0,
+           "and_common_mass_below_2^-50": 0, "tiny_scalars": 0, "near_tie_large_dists": 0, "non_dyadic_dists": 0,
+           "supports_of_10_or_more": 0, "kernel_shared_object": 0,
            "generator_consumption_drift": 0, "sample_mirror_drift": 0, "sample_k_shape_drift": 0, "mixed_sequence_draws": 0}
     reps = {}
     FALSY = {ID[v] for v in UNIVERSE if not v}
@@ -766,8 +808,16 @@ def run(ctx):
                 cnt["nearly_normalised_dists"] += 1
             if any(w >= 1000 for w in fw):
                 cnt["large_magnitude_dists"] += 1
+                pos_ = sorted(w for w in fw if w > 0)
+                if any(0 < (b_ - a_) <= a_ * F(1, 10**5) for a_, b_ in zip(pos_, pos_[1:])):
+                    cnt["near_tie_large_dists"] += 1
+            cnt["tiny_weight_entries_2^-27..2^-60"] += sum(1 for w in fw if F(1, 2**60) <= w <= F(1, 2**27))
+            if any(w.denominator & (w.denominator - 1) and w.denominator < 1000 for w in fw):
+                cnt["non_dyadic_dists"] += 1
             if any(0 < w <= F(1, 2**20) or 0 < 1 - w <= F(1, 2**20) for w in fw):
                 cnt["tiny_probability_dists"] += 1
+        if len(ids) >= 10:
+            cnt["supports_of_10_or_more"] += 1
     kinds_count = {k: 0 for k in KINDS}
     pair_count = {}
     terms, meta, sm_jobs = [], [], []
@@ -871,6 +921,9 @@ def run(ctx):
         cnt["default_real_function"] += bool(case.get("default_real"))
         cnt["int_scalars"] += bool(case.get("ab_int"))
         cnt["seed_zero"] += case["seed"] == 0
+        cnt["tiny_decides_cases"] += bool(case.get("tiny_decides"))
+        cnt["kernel_shared_object"] += bool(case.get("kern_shared"))
+        cnt["tiny_scalars"] += any(0 < F(case[k_]) <= F(1, 2**27) for k_ in ("a", "b"))
         pk = case["d1"]["kind"] + "x" + case["d2"]["kind"]
         pair_count[pk] = pair_count.get(pk, 0) + 1
 
@@ -925,8 +978,11 @@ def run(ctx):
             continue
         try:
             (_, v1, v2, m_marg, m_chain, (m_cond, (m_kept, m_norm)), m_joint, m_mix, m_rmul,
-             (m_and, m_common, m_N), m_exp, m_normz, m_draws, m_gdraws, m_isn2, m_c1, m_c2) = v
-            m_c1, m_c2 = unq_items(m_c1), unq_items(m_c2)
+             (m_and, m_common, m_N), m_exp, m_normz, m_draws, m_gdraws, m_isn2, m_c1, m_c2,
+             (m_sand, m_sN), m_smix, m_sjoint) = v
+            m_c1, m_c2, m_sand, m_smix = unq_items(m_c1), unq_items(m_c2), unq_items(m_sand), unq_items(m_smix)
+            m_sjoint = [(x[0], x[1], unq(x[2])) for x in m_sjoint]
+            m_sN = unq(m_sN)
             v1 = (unq_items(v1[0]), [unq(x) for x in v1[1]], unq(v1[2]), v1[3])
             v2 = (unq_items(v2[0]), [unq(x) for x in v2[1]], unq(v2[2]), v2[3])
             m_marg, m_chain, m_cond, m_kept = map(unq_items, (m_marg, m_chain, m_cond, m_kept))
@@ -994,6 +1050,10 @@ def run(ctx):
             cnt["out_of_quantifier"] += 1
         if m_norm == 0 and not m_kept:
             cnt["condition_all_rejected"] += 1
+        if m_kept and all(dict(items1).get(x, 1) <= F(1, 2**27) for x, _ in m_kept) and m_norm > 0:
+            cnt["posterior_carried_by_tiny_entries"] += 1
+        if 0 < m_N <= F(1, 2**50):
+            cnt["and_common_mass_below_2^-50"] += 1
         if m_N > 0 and any(p == 0 for _, p in m_and):
             cnt["and_with_zero_probability_entry"] += 1
         if 0 < m_N < UNDERFLOW and not isinstance(res["and"], list):
@@ -1161,6 +1221,23 @@ def run(ctx):
             c = cmp_items(res["compose_condition_marginalize"], m_c2, stats)
             if c:
                 problems["compose:condition.marginalize"] = c
+        # one object as both operands; results asked again later; the same spec built again; caller's containers
+        if "self_and" in res:
+            if m_sN >= UNDERFLOW or (m_sN > 0 and isinstance(res["self_and"], list)):
+                c = cmp_items(res["self_and"], m_sand, stats)
+                if c:
+                    problems["self:d1 & d1"] = c
+            c = cmp_items(res["self_mix"], m_smix, stats)
+            if c:
+                problems["self:d1 | d1"] = c
+            c = cmp_items(res["self_joint"], m_sjoint, stats, True)
+            if c:
+                problems["self:d1.joint(d1)"] = c
+            for key_, what in (("stale_ok", "reuse:stale-result"), ("rebuild_same", "reuse:rebuild"),
+                               ("inputs_unchanged", "reuse:caller-objects")):
+                if res.get(key_) is not True:
+                    problems[what] = str(res.get(key_))[:300]
+            nops += 6
         if res.get("repeat_ok") is not True:
             problems["reuse"] = "asking the same object again gave a different answer: %s" % (res.get("repeat_ok"),)
         for nm in ("d1", "d2"):
